@@ -34,7 +34,7 @@ CHECKS = {
     ),
     "C18": dict(
         engine="codec", level="exploration",
-        args=dict(quick=["-budget", "4"], thorough=["-budget", "6"]),
+        args=dict(quick=["-budget", "5"], thorough=["-budget", "6"]),
         deadline=dict(quick=110, thorough=1500),
         rule="for every template unit, every population, every tag t of template ∪ framing ∪ {34}: (i) each String/Raw field takes the values t=, t=1, xt=2, y\\x02t=, =t=; (ii) a decoy field with tag 1t, t1, 9t, t0, t-without-first-digit, t-without-last-digit is placed before / after the genuine fields; (iii) genuine field or group present/absent. The message is built by the harness encoder; Unmarshal (strict and not) must yield exactly the population and ValueByTag must equal the reference whole-tag lookup for every tag. Non-trivial-distinct key: (unit, typed shape, population, kind {plain, decoy-before, decoy-after, taglike-value}, values, decoy).",
         assumptions=CODEC_ASSUME + ["decoy fields are placed at top level only (after MsgType / before CheckSum); the trailer is left unpopulated (C17 known finding)",
@@ -56,10 +56,36 @@ CHECKS = {
     ),
 }
 
+SESS_ASSUME = [
+    "explored object: the real handler/session/store code, source-rewritten onto the controlled scheduler (engine/rewrite + engine/vsched); the rewriter and the vsched channel/mutex/context/timer models are trusted (DESIGN.md §5)",
+    "strict virtual time: computation takes zero time, timers fire only when no task is enabled",
+    "inbound messages come from an independent encoder, outbound bytes are read by an independent tokenizer",
+]
+CHECKS.update({
+    "C06": dict(
+        engine="sess", level="model_checking", args=[],
+        deadline=dict(quick=110, thorough=1500),
+        rule="all histories up to the depth bound over the alphabet {acceptable/refused/damaged Logons (hb below/above limits, disallowed method, refused credentials, bad checksum, bad length, non-numeric HeartBtInt, sequence number ahead), Heartbeat, TestRequest, ResendRequest, Logout, application and unknown types, local Send, local Logout}, both roles; each history replayed from scratch on the real handler+session, every event run to quiescence; reference automaton W/L/O evaluated after every step. States = distinct (monitor state, session fingerprint) pairs; transitions = (history, event) extensions executed.",
+        assumptions=SESS_ASSUME,
+    ),
+    "C07": dict(
+        engine="sess", level="model_checking", args=[],
+        deadline=dict(quick=110, thorough=1500),
+        rule="all histories up to the depth bound over inbound events that contain no acceptable Logon for the acceptor {refused/damaged Logons, Heartbeat, TestRequest, ResendRequest over six ranges, Logout, application/unknown types, three heartbeat periods of silence}, with a fresh store and with a store already holding the messages of an earlier session; oracle: every outbound message before the first successful logon has MsgType A, 5 or 3.",
+        assumptions=SESS_ASSUME,
+    ),
+    "C16": dict(
+        engine="sess", level="model_checking", args=[],
+        deadline=dict(quick=110, thorough=1500),
+        rule="all histories up to the depth bound over valid administrative traffic plus damaged administrative messages (wrong checksum, wrong length, non-numeric numeric field, MsgSeqNum missing / non-numeric) so that every (type, damage, session state) cell is reached at some position followed by valid traffic; oracle per invalid or not-permitted administrative message: exactly one Reject with the right RefSeqNum / RefTagID=34, IsLogged unchanged, handler not stopped, later valid messages processed normally.",
+        assumptions=SESS_ASSUME,
+    ),
+})
+
 ENGINES = [
     {"name": "codecmc", "path": "harness/codec", "serves_properties": ["C01", "C02", "C03", "C11", "C17", "C18"],
      "kind_free_text": "E1: bounded-exhaustive enumeration of the codec input space (templates x populations x values x damage x byte strings) on the real fix / fix/encoding packages against an independent reference codec"},
-    {"name": "vsched", "path": "engine/vsched + engine/rewrite + harness/sess", "serves_properties": [],
+    {"name": "vsched", "path": "engine/vsched + engine/rewrite + harness/sess", "serves_properties": ["C06", "C07", "C16"],
      "kind_free_text": "E2: the real transport/session code, source-rewritten so that goroutines, channels, select, sync, context, time and errgroup run on a controlled scheduler with virtual time; stateless deviation-bounded DFS over schedules and exhaustive enumeration of event histories"},
 ]
 
@@ -74,7 +100,16 @@ LEVEL_TEXT = {
     "C11": "Exhaustive enumeration of all short byte strings over a delimiter-heavy alphabet and of all framed token strings up to a bound, against message types with nested groups; oracle is absence of panic and termination.",
 }
 
+LEVEL_TEXT.update({
+    "C06": "Explicit-state exploration of the real session: every inbound/local event history up to a depth bound is executed on fresh real objects under a controlled scheduler and checked step by step against a reference logon automaton. Right level because the property is a protocol state-machine invariant over histories.",
+    "C07": "Explicit-state exploration of the real session over all pre-logon inbound histories up to a depth bound, with an empty and a pre-populated shared store.",
+    "C16": "Explicit-state exploration of the real session over histories mixing valid and damaged administrative messages in every session state.",
+})
+
 TECHNIQUE = {
+    "C06": "explicit-state model checking of the implementation: exhaustive event-history enumeration (depth-bounded) under a controlled scheduler with a reference automaton as oracle",
+    "C07": "explicit-state model checking of the implementation: exhaustive pre-logon history enumeration (depth-bounded) under a controlled scheduler",
+    "C16": "explicit-state model checking of the implementation: exhaustive history enumeration over valid + damaged admin messages in every state",
     "C01": "bounded-exhaustive input enumeration on the real code vs reference oracle (small-scope model checking of a sequential function)",
     "C17": "bounded-exhaustive input enumeration on the real code vs reference field-list model",
     "C02": "bounded-exhaustive input enumeration on the real code, differential round-trip oracle",
